@@ -3,8 +3,8 @@ import TunnoxModel.Spec.C17
 /-!
 Line protocol for C17.
 
-case  := `p <proto> lim <L> pre <k> thr <n> (<inst> <nops> (a|r)*)* sch <m> <tid>*`
-proto := `conn` | `ctrl` | `tun` | `map` | `mapu` | `code` | `mapq`   (the instances of Model/C17; `mapu` = `map` with the limit taken from the user quota)
+case  := `p <proto> lim <L> pre <k> thr <n> (<inst> <nops> (a|r|o)*)*   (a = admission, r = release own, o = admission of another client) sch <m> <tid>*`
+proto := `conn` | `ctrl` | `ctrlx` (Register with gated stream Close) | `tun` | `map` | `mapu` | `code` | `mapq`   (the instances of Model/C17; `mapu` = `map` with the limit taken from the user quota)
 obs   := event* `|` item*
 event := `stp.<tid>.<n>` | `blk.<tid>.<n>` | `adm.<tid>.<item>.<victim or ->.<n>` | `ref.<tid>.<dirty>.<n>`
        | `rel.<tid>.<item>.<n>` | `nop.<tid>.<n>`
@@ -17,6 +17,7 @@ open Tunnox.C17 Gen
 def protoOf : String → Option Proto
   | "conn" => some protoConn
   | "ctrl" => some protoCtrl
+  | "ctrlx" => some protoCtrlX
   | "tun" => some protoTun
   | "map" => some protoMap
   | "mapu" => some protoMap
@@ -32,6 +33,7 @@ def renderEv : Ev → String
   | .ref t d n => s!"ref.{t}.{if d then 1 else 0}.{n}"
   | .rel t i n => s!"rel.{t}.{i}.{n}"
   | .nop t n => s!"nop.{t}.{n}"
+  | .evi t v n => s!"evi.{t}.{v}.{n}"
 
 def renderObs (tr : List Ev) (fin : List Nat) : String :=
   " ".intercalate (tr.map renderEv ++ ["|"] ++ fin.map toString)
@@ -42,6 +44,7 @@ def parseEv (tok : String) : Option Ev :=
   | ["blk", t, n] => do let t ← t.toNat?; let n ← n.toNat?; pure (.blk t n)
   | ["nop", t, n] => do let t ← t.toNat?; let n ← n.toNat?; pure (.nop t n)
   | ["rel", t, i, n] => do let t ← t.toNat?; let i ← i.toNat?; let n ← n.toNat?; pure (.rel t i n)
+  | ["evi", t, v, n] => do let t ← t.toNat?; let v ← v.toNat?; let n ← n.toNat?; pure (.evi t v n)
   | ["ref", t, d, n] => do
     let t ← t.toNat?; let n ← n.toNat?
     if d == "0" then pure (.ref t false n) else if d == "1" then pure (.ref t true n) else none
@@ -68,6 +71,7 @@ def parseOps : Nat → List String → Option (List Op × List String)
   | 0, ts => some ([], ts)
   | n + 1, "a" :: ts => do let (ops, rest) ← parseOps n ts; pure (.acquire :: ops, rest)
   | n + 1, "r" :: ts => do let (ops, rest) ← parseOps n ts; pure (.release :: ops, rest)
+  | n + 1, "o" :: ts => do let (ops, rest) ← parseOps n ts; pure (.other :: ops, rest)
   | _, _ => none
 
 def parseThreads : Nat → List String → Option (List (Nat × List Op) × List String)
